@@ -94,21 +94,45 @@ def roundtrip_copy(root):
     return tmp
 
 
-def run_roundtrip(args):
+def rename_copy(root):
+    """consistent renaming of every function's plain local variables (sa/rename.py): a check that keys on
+    the spelling of a local would change its verdict or its finding keys"""
+    from sa.rename import rename_locals
+    tmp = make_copy(root)
+    for dp, dn, fns in os.walk(os.path.join(tmp, "cola")):
+        for f in fns:
+            if f.endswith(".py"):
+                p = os.path.join(dp, f)
+                with open(p) as fh:
+                    src = fh.read()
+                out, _ = rename_locals(src, p)
+                with open(p, "w") as fh:
+                    fh.write(out)
+    return tmp
+
+
+def run_roundtrip(args, kind="roundtrip"):
     pid, root, base = args
     sys.path.insert(0, VERIF)
     from sa.main import run_property
-    tmp = roundtrip_copy(root)
+    tmp = roundtrip_copy(root) if kind == "roundtrip" else rename_copy(root)
     try:
         rc, rep = run_property(pid, "quick", tmp, evidence_dir=os.path.join(tmp, "_ev"), quiet=True)
         refuted = {ob.key for ob in rep.obs if ob.status == "REFUTED"}
         undec = {ob.key for ob in rep.obs if ob.status == "UNDECIDED"}
         b_rc, b_ref, b_und = base
         ok = rc == b_rc and refuted == b_ref and undec == b_und
-        why = "verdict and keys unchanged after ast.unparse round trip" if ok else f"rc {b_rc}->{rc}; refuted diff {sorted(refuted ^ b_ref)[:4]}; undecided diff {sorted(undec ^ b_und)[:4]}"
-        return {"id": f"roundtrip-{pid}", "ok": ok, "why": why}
+        what = "ast.unparse round trip" if kind == "roundtrip" else "renaming all function locals"
+        why = f"verdict and keys unchanged after {what}" if ok else f"rc {b_rc}->{rc}; refuted diff {sorted(refuted ^ b_ref)[:4]}; undecided diff {sorted(undec ^ b_und)[:4]}"
+        if not ok and rc == 2:
+            why += " | " + " ".join(ln for ln in getattr(rep, "output", []) if ln.startswith("ANALYSIS"))[:400]
+        return {"id": f"{kind}-{pid}", "ok": ok, "why": why}
     finally:
         shutil.rmtree(tmp, ignore_errors=True)
+
+
+def run_rename(args):
+    return run_roundtrip(args, kind="rename")
 
 
 def validate(pids, root="/repo", jobs=16, verbose=True):
@@ -123,13 +147,14 @@ def validate(pids, root="/repo", jobs=16, verbose=True):
     with cf.ProcessPoolExecutor(max_workers=jobs) as ex:
         futs = [ex.submit(run_mutant, (m, root, base)) for m in mutants]
         futs += [ex.submit(run_roundtrip, (pid, root, base_full[pid])) for pid in pids]
+        futs += [ex.submit(run_rename, (pid, root, base_full[pid])) for pid in pids]
         for f in futs:
             results.append(f.result())
     bad = [r for r in results if not r["ok"]]
     if verbose:
         for r in results:
             print(f"selftest {'ok  ' if r['ok'] else 'FAIL'} {r['id']}: {r['why']}")
-        print(f"selftest: {len(results) - len(bad)}/{len(results)} passed ({len(mutants)} mutants, {len(pids)} round trips)")
+        print(f"selftest: {len(results) - len(bad)}/{len(results)} passed ({len(mutants)} mutants, {len(pids)} unparse round trips, {len(pids)} local-rename round trips)")
     return bad, results
 
 
